@@ -208,11 +208,11 @@ package threshold
 //@   ensures [sorted]   result.1 == nil ==> len(result.0) == len(ids) &&
 //@                        forall i int, j int :: 0 <= i && i <= j && j < len(result.0) ==> result.0[i] <= result.0[j]
 //@   // (with equal lengths and pairwise distinct party ids, [all] implies that nothing else is in the result)
-//@   ensures [all]      result.1 == nil ==> forall j int :: 0 <= j && j < len(ids) ==>
-//@                        exists i int :: 0 <= i && i < len(result.0) && result.0[i] == m.uID2PID[ids[j]]
+//@   ensures [all]      result.1 == nil ==> forall j int :: 0 <= j && j < len(ids) ==> m.uID2PID[ids[j]] in elems(result.0, len(result.0))
 //@   loop 0: invariant [shape]    len(res) == rangeindex+1 && -1 <= rangeindex && rangeindex < len(ids) && used != nil
 //@   loop 0: invariant [res]      forall k int :: 0 <= k && k <= rangeindex ==> res[k] == m.uID2PID[ids[k]]
 //@   loop 0: invariant [used]     forall k int :: 0 <= k && k <= rangeindex ==> m.uID2PID[ids[k]] in used
+//@   loop 0: invariant [set]      forall k int :: 0 <= k && k <= rangeindex ==> m.uID2PID[ids[k]] in elems(res, len(res))
 //@   loop 0: invariant [distinct] forall a int, b int :: 0 <= a && a < b && b <= rangeindex ==> m.uID2PID[ids[a]] != m.uID2PID[ids[b]]
 //@
 //@ func partyIDsToUInts
